@@ -173,6 +173,7 @@ type hoWorld struct {
 	vf       *voteFixture
 	m        *hoModel
 	credited map[int]bool
+	creditedKeys map[string]bool
 	nextWd   uint64
 	nextID   uint64
 	wdStatus map[uint64]string
@@ -258,17 +259,20 @@ func (w *hoWorld) round(ri int, r HoRound, o *Outcome) *Failure {
 		msg := &bitcointypes.MsgNewDeposits{Proposer: rv.Proposer}
 		var keys []string
 		seen := map[int]bool{}
+		seenKey := map[string]bool{}
 		hdr := map[uint64]bool{}
 		for _, d := range r.Deposits {
 			bi := abs(d) % len(f.blocks)
-			if w.credited[bi] || seen[bi] || len(msg.Deposits) >= 16 {
+			b := f.blocks[bi]
+			outKey := fmt.Sprintf("%x:%d", world.DSha(b.blk.Raw[b.pos]), b.outIdx) // the same transaction may sit in two model blocks
+			if w.creditedKeys[outKey] || seenKey[outKey] || seen[bi] || len(msg.Deposits) >= 16 {
 				continue
 			}
-			b := f.blocks[bi]
 			if ok, _ := b.validity(f.keys, f.params); !ok {
 				continue
 			}
 			seen[bi] = true
+			seenKey[outKey] = true
 			msg.Deposits = append(msg.Deposits, b.deposit())
 			if !hdr[b.height] {
 				hdr[b.height] = true
@@ -286,6 +290,9 @@ func (w *hoWorld) round(ri int, r HoRound, o *Outcome) *Failure {
 			onOK = append(onOK, func() {
 				for bi := range seen {
 					w.credited[bi] = true
+				}
+				for k := range seenKey {
+					w.creditedKeys[k] = true
 				}
 				for _, k := range keys {
 					m.deposits = append(m.deposits, k)
@@ -624,7 +631,7 @@ func runHoCase(c HoCase) Outcome {
 	}
 	defer func() { f.close() }()
 	vf := &voteFixture{sim: f.sim, n: 2, btcKey: c.Keys[len(c.Keys)-1].key()}
-	w := &hoWorld{f: f, vf: vf, credited: map[int]bool{}, nextWd: 1, nextID: 1, wdStatus: map[uint64]string{},
+	w := &hoWorld{f: f, vf: vf, credited: map[int]bool{}, creditedKeys: map[string]bool{}, nextWd: 1, nextID: 1, wdStatus: map[uint64]string{},
 		m: &hoModel{delivered: map[string]int{}, owed: map[string]int{}, deliveredOrder: map[string][]string{}, owedOrder: map[string][]string{}, voted: map[uint64][]byte{}, tip: depTip}}
 	for ri, r := range c.Rounds {
 		if fl := w.round(ri, r, &o); fl != nil {
